@@ -68,6 +68,15 @@ def _worker(args):
     return ctx.payload()
 
 
+def _warm(mod, tier):
+    if hasattr(mod, "warm"):
+        import inspect
+        if len(inspect.signature(mod.warm).parameters):
+            mod.warm(tier)
+        else:
+            mod.warm()
+
+
 def load_findings():
     path = os.path.join(VERIF, "known_findings.json")
     if not os.path.exists(path):
@@ -112,8 +121,7 @@ def main(argv=None):
     if n_roots:
         r = seed % n_roots
         roots = roots[r:] + roots[:r]
-    if hasattr(mod, "warm"):
-        mod.warm()
+    _warm(mod, a.tier)
     jobs = max(1, min(a.jobs, n_roots, getattr(mod, "MAX_JOBS", 16)))
     ctx = Ctx(prop, a.tier, seed)
     if jobs == 1:
@@ -200,8 +208,7 @@ def replay(mod, path, tier, seed):
     with open(path) as f:
         rec = json.load(f)
     ctx = Ctx(mod.PROPERTY, rec.get("tier", tier), seed)
-    if hasattr(mod, "warm"):
-        mod.warm()
+    _warm(mod, rec.get("tier", tier))
     if hasattr(mod, "replay"):
         mod.replay(rec, ctx)
     else:
